@@ -180,6 +180,17 @@ impl Sched {
             if args.first().map(|s| s.as_str()) == Some("ext") {
                 trace(pid, format!("fds exec {}", fd_table(&state, pid)));
             }
+            // `sigs`: the signal state the program would start with (mask and dispositions)
+            if args.first().map(|s| s.as_str()) == Some("sigs") {
+                let st = state.borrow();
+                if let Some(p) = st.processes.get(&pid) {
+                    let mut blocked: Vec<i32> = p.blocked_signals().iter().map(|s| s.as_raw()).collect();
+                    blocked.sort();
+                    let disp: Vec<String> = SIGNALS.iter().map(|(name, n)| format!("{name}:{:?}", p.disposition(signum(*n)))).collect();
+                    drop(st);
+                    trace(pid, format!("sigs exec blocked={blocked:?} {}", disp.join(",")));
+                }
+            }
         }
     }
     fn tap(&self, pid: Pid, name: &'static str) {
@@ -999,7 +1010,7 @@ pub struct Run {
     pub final_fds: Option<String>,
 }
 
-pub const STUBS: &[&str] = &["true", "false", "pwd", "ext", "ext2", "envp"];
+pub const STUBS: &[&str] = &["true", "false", "pwd", "ext", "ext2", "envp", "sigs"];
 
 fn mkfile(content: Vec<u8>, mode: u32, native: bool) -> Rc<RefCell<Inode>> {
     let mut inode = Inode::new([]);
